@@ -121,6 +121,10 @@ class C06(runner.Check):
 		# 10 of machine epsilon, so batch shape changes results at the 1e-3 level
 		# for reasons that have nothing to do with the batching bookkeeping
 		mspec["dtype"] = "float64"
+		# states that only make sense for C07 (every deep_lift_shap call raises /
+		# everything is subnormal)
+		mspec["legacy_bwd_history"] = False
+		mspec["tiny_weights"] = False
 		n = r.wchoice([r.randint(1, 6), r.randint(9, 12)], [6, 1])
 		ns = r.randint(1, 6) if n <= 6 else r.randint(1, 3)
 		# the reference *function*: the default dinucleotide shuffle, or the plain
@@ -232,7 +236,7 @@ class C06(runner.Check):
 		X = mw.gen_onehot(world["xseed"], n, L, dtype=dt)
 		args = None
 		if mspec.get("n_args", 0):
-			args = (torch.linspace(-1, 1, n + 2, dtype=dt)[1:n + 1].reshape(n, 1),)
+			args = mw.make_args(mspec, n, dt)
 		pristine = mw.build_model(mspec)
 		mw.set_plan(mw.FaultPlan(None))
 		def compute_canon(pristine_model):
@@ -256,7 +260,7 @@ class C06(runner.Check):
 		try:
 			canon, canon_refs, cond = compute_canon(pristine)
 		except Exception as e:
-			out.skipped = "canonical run raises %s" % type(e).__name__
+			out.skipped = "canonical run raises %s: %s" % (type(e).__name__, str(e)[:60])
 			out.digest = log.digest()
 			return out
 		if cond.reason:
@@ -273,8 +277,7 @@ class C06(runner.Check):
 		world_refs0 = world_refs.clone()
 		shared = mw.clone_model(pristine)
 		pX = mw.gen_onehot(world["xseed"] + 17, 4, L, dtype=dt)
-		pargs = () if args is None else (torch.tensor([[0.5], [-0.25], [1.0], [0.0]],
-			dtype=dt),)
+		pargs = () if args is None else mw.make_args(mspec, 4, dt, lo=-0.5, hi=1.0)
 		nthreads0 = numba.get_num_threads()
 		perturbed = False
 		nontrivial = False
